@@ -30,6 +30,13 @@ const wsNamespace = "urn:ietf:params:xml:ns:xmpp-framing"
 // information.
 func Send(rw io.ReadWriter, streamData *stream.Info, ws bool, version stream.Version, lang, to, from, id string) error {
 	streamData.ID = id
+	// Record which element opened the stream: Close picks the matching closing
+	// element from it.
+	if ws {
+		streamData.Name = xml.Name{Space: wsNamespace, Local: "open"}
+	} else {
+		streamData.Name = xml.Name{Space: stream.NS, Local: "stream"}
+	}
 	b := bufio.NewWriter(rw)
 	var err error
 	if ws {
